@@ -340,7 +340,9 @@ impl Msg {
 			Msg::Ready(_) => "type=ready".to_string(),
 			Msg::AnnSigs(_) => "type=annsigs".to_string(),
 			Msg::ChanUpdate(_) => "type=chanupdate".to_string(),
-			Msg::Error(m) => format!("type=error data={}", m.data.replace(' ', "_")),
+			Msg::Error(m) => {
+				format!("type=error data={}", m.data.replace(' ', "_").chars().take(60).collect::<String>())
+			},
 			Msg::Shutdown(_) => "type=shutdown".to_string(),
 			Msg::ClosingSigned(_) => "type=closingsigned".to_string(),
 		}
@@ -455,6 +457,10 @@ impl<'a> World<'a> {
 			let push = |w: &mut World<'a>, to: PublicKey, m: Msg| {
 				if let Some(t) = w.idx_of(&to) {
 					if n == C && w.c_silent {
+						return;
+					}
+					// gossip is irrelevant here and only dilutes the schedule
+					if let Msg::ChanUpdate(_) | Msg::AnnSigs(_) = m {
 						return;
 					}
 					if !w.connected[n][t] {
@@ -1219,18 +1225,18 @@ fn run_scenario(seed: u64, index: u64, trace: TraceRef) {
 			w.after_action();
 			continue;
 		}
+		let window = w.persister_b.st.lock().unwrap().u_preimage_pending;
+		let in_window = p.focus && window.is_some();
 		// enabled actions
 		let mut acts: Vec<(u64, u8, usize, usize)> = Vec::new(); // (weight, kind, x, y)
 		for x in 0..3 {
 			for y in 0..3 {
 				if !w.queues[x][y].is_empty() && w.connected[x][y] {
-					acts.push((30, 0, x, y));
+					acts.push((if in_window && (x == C || y == C) { 90 } else { 30 }, 0, x, y));
 				}
 			}
 		}
 		let pend = w.pending_updates_b();
-		let window = w.persister_b.st.lock().unwrap().u_preimage_pending;
-		let in_window = p.focus && window.is_some();
 		if !pend.is_empty() {
 			acts.push((if p.sync_sched { 60 } else if in_window { 5 } else { 15 }, 1, 0, 0));
 		}
